@@ -124,7 +124,9 @@ Reset ==
   /\ Ev("reset")
   /\ IF l = 1 THEN TRUE ELSE PrintT("RUN " \o ToJson(<<cfg.run, cfg.fam, verdict>>))
   /\ Adv
-  /\ mode' = "ok" /\ verdict' = <<>>
+  \* the (untraced) handshake of a session family must have returned the CONNACK as ConnectRsp (C13)
+  /\ mode' = IF Ln.ok = 1 THEN "ok" ELSE "tainted"
+  /\ verdict' = IF Ln.ok = 1 THEN <<>> ELSE <<"C13", "connect-did-not-return-the-connack", l, Ln.fam>>
   /\ cfg' = Ln
   /\ S' = InitS(Ln.R, Ln.M)
   /\ msgQ' = <<>> /\ netIn' = <<>> /\ netEnd' = "open" /\ wrm' = "accept"
@@ -456,7 +458,7 @@ CancelAwaiting(o, aw) ==
 \* decided (and takes effect) when run() starts serving the new connection, i.e. in its first poll
 
 Reconnect ==
-  /\ Ok /\ Ev("reconnect") /\ ph = "ret" /\ Adv
+  /\ Ok /\ Ev("reconnect") /\ ph = "ret" /\ Ln.ok = 1 /\ Adv
   /\ LET expired == secsAgo # <<>> /\ SessionExpired(Ln.seik, Ln.sei, secsAgo[1]) IN
         \* the exchanges still in flight keep their slots: re-sent PUBLISH packets are "sent and not yet completed" on the
         \* new connection as well, so the quota is the new Receive Maximum less the slots in use (C10 across a resumption)
@@ -592,7 +594,12 @@ RefusedType(pk, kind) ==
 
 ClassifyWr(pk) ==
   IF ph # "run" \/ discW THEN V("C13", "write-after-end", pk.t)
-  ELSE IF pk.t = "MALFORMED" THEN V("C01", "malformed-packet", pk.x)
+  ELSE IF pk.t = "MALFORMED" THEN
+         \* whatever was meant, it is not a well-formed packet (C01); when a retransmission (C17) or an acknowledgement
+         \* (C08) was due at this point that obligation is broken by the same bytes
+         V(<<"C01">> \o (IF resumeQ # <<>> /\ ~Deciding THEN <<"C17">> ELSE <<>>)
+                    \o (IF resumeQ = <<>> /\ netIn # <<>> /\ HandlePkt(S, Head(netIn)).wr # <<>> THEN <<"C08">> ELSE <<>>),
+           "malformed-packet", pk.x)
   ELSE IF resumeQ # <<>> /\ ~Deciding THEN V("C17", "resume-mismatch", <<pk.t, pk.id, pk.dup, Head(resumeQ).t, Head(resumeQ).id>>)
   ELSE IF cfg.recon = 1 /\ ((pk.t = "PUBLISH" /\ pk.dup = 1) \/ (pk.t = "PUBREL" /\ (msgQ = <<>> \/ Head(msgQ).pk.t # "PUBREL")))
        THEN V("C17", "unexpected-retransmission", <<pk.t, pk.id>>)
@@ -653,6 +660,7 @@ ClassifyPollOp ==
   ELSE LET want == StepOf(Ln.k).res got == Ln.res IN
     IF got.r = "panic" THEN
         (IF Ln.first = 1 THEN V("C11", "allocation-panic", IF "msg" \in DOMAIN got THEN got.msg ELSE "")
+         ELSE IF want.kind = "ContextExited" THEN V(<<"C14", "C04">>, "panic-instead-of-context-exited", IF "msg" \in DOMAIN got THEN got.msg ELSE "")
          ELSE V("C04", "panic-in-operation", IF "msg" \in DOMAIN got THEN got.msg ELSE ""))
     ELSE IF SameRes(want, got) /\ Ln.woken = 0 THEN V("C16", "progress-without-wakeup", <<"op", Ln.k>>)
     ELSE IF want.r = "pending" THEN
@@ -671,6 +679,14 @@ ClassifyPollOp ==
     ELSE IF ops[Ln.k].kind = "pub" THEN V("C06", "outcome", <<want.r, want.kind, want.rc, got.r, got.kind, got.rc>>)
     ELSE V(WithC15("C05"), "ack-content", <<want.x, got.x>>)
 
+\* look-ahead (classification only): does a later poll of stream k WITHOUT a wake-up yield an item?  Then the items were
+\* there and the stream had returned Pending without arranging its wake-up (C16), whatever else is wrong with the item.
+RECURSIVE StreamProgressUnwoken(_, _)
+StreamProgressUnwoken(k, i) ==
+  IF i > N \/ Rec[i].e \in {"reset", "end"} THEN FALSE
+  ELSE IF Rec[i].e = "pollst" /\ Rec[i].k = k /\ Rec[i].woken = 0 /\ Rec[i].res.r = "item" THEN TRUE
+  ELSE StreamProgressUnwoken(k, i + 1)
+
 ClassifyPollSt ==
   IF Ln.k \notin DOMAIN sts THEN V("C07", "unknown-stream", Ln.k)
   ELSE LET s == sts[Ln.k] want == StExpected(s) got == Ln.res IN
@@ -682,7 +698,10 @@ ClassifyPollSt ==
     ELSE IF want = "end" /\ got.r = "pending" THEN V("C14", "stream-hangs-after-context-gone", Ln.k)
     ELSE IF want = "pending" /\ got.r = "end" THEN V(WithC15("C07"), "ended-early", Ln.k)
     ELSE IF want = "item" /\ got.r = "item" THEN V(WithC15("C07"), "wrong-item", <<Head(s.buf).tag, got.pk.tag, Head(s.buf).x, got.pk.x>>)
-    ELSE IF want = "item" THEN V(WithC15("C07"), "item-missing", <<Head(s.buf).tag, got.r>>)
+    ELSE IF want = "item" THEN
+           (IF got.r = "pending" /\ StreamProgressUnwoken(Ln.k, l + 1)
+            THEN V(<<"C07", "C16">> \o (IF g.ncancel > 0 THEN <<"C15">> ELSE <<>>), "item-withheld-until-polled-without-wakeup", <<Head(s.buf).tag, got.r>>)
+            ELSE V(WithC15("C07"), "item-missing", <<Head(s.buf).tag, got.r>>))
     ELSE V(WithC15("C07"), "extra-item", <<got.pk.tag, got.pk.qos>>)
 
 ClassifyQuiescent ==
@@ -710,6 +729,8 @@ Classify ==
     [] Ln.e = "disccmp"   -> V("C16", "outcome-depends-on-polling-discipline", <<Ln.variant, Ln.detail>>)
     [] Ln.e = "first"     -> IF Ln.res.r = "panic" THEN V("C04", "panic-in-connect", Ln.inj)
                              ELSE V("C13", "first-response", <<Ln.phase, Ln.inj, Ln.rc, Ln.res.kind, Ln.res.rc>>)
+    [] Ln.e = "reconnect" /\ Ln.ok = 0 /\ ph = "ret"
+                          -> V("C13", "connect-on-a-new-transport-did-not-return-the-connack", <<>>)
     [] OTHER              -> V("TOOL", "unmatched-environment-line", Ln.e)
 
 Diverge ==
